@@ -85,6 +85,8 @@ func File(tier int) []aa.Rule {
 			}
 		}
 	}
+	// the bare rule `file,` (every file access; shipped in makepkg), with owner and a qualifier
+	out = append(out, &aa.File{}, &aa.File{Owner: true}, &aa.File{Qualifier: aa.Qualifier{Audit: true}})
 	return out
 }
 
@@ -251,6 +253,11 @@ func Of(kind string, tier int) []aa.Rule {
 					add(&aa.Dbus{Qualifier: q, Access: []string{"bind"}, Bus: b, Name: n})
 				}
 			}
+			// bind rules with one of the two conditions only, bind next to another access, a name without access
+			add(&aa.Dbus{Qualifier: q, Access: []string{"bind"}, Name: "org.x"})
+			add(&aa.Dbus{Qualifier: q, Access: []string{"bind"}, Bus: "session"})
+			add(&aa.Dbus{Qualifier: q, Access: []string{"bind", "eavesdrop"}, Bus: "session"})
+			add(&aa.Dbus{Qualifier: q, Bus: "session", Name: "org.x"})
 		}
 	case "rlimit":
 		for _, k := range []string{"nofile", "nice", "cpu", "as"} {
